@@ -116,4 +116,4 @@ MANIFEST = {
     'design_ref': 'DESIGN.md 3/C06, 2.4, 2.5 A1-A2',
 }
 MANIFEST['note'] += (' Also decided here (necessary conditions shared between properties or added after the independent '
-                     'change rounds, DESIGN.md 8.7): registry consistency (from C05).')
+                     'change rounds, DESIGN.md 8.7): registry consistency (from C05). Rounds 7-8: no identity test / enumeration attribute on raw integers from the wire; range() step that can be 0.')
